@@ -114,8 +114,16 @@ def main():
   item = json.load(sys.stdin)
   from vf.core import Reject
 
+  # a list = a program: every item but the last is run for its side effects on the process (rejected ones are skipped), the last one is reported
+  items = item if isinstance(item, list) else [item]
+  nrej = 0
+  for it in items[:-1]:
+    try:
+      run_item(it)
+    except Reject:
+      nrej += 1
   try:
-    res = dict(status="ok", out=encode(run_item(item)))
+    res = dict(status="ok", out=encode(run_item(items[-1])), earlier_rejected=nrej)
   except Reject as r:
     res = dict(status="reject", msg=str(r))
   sys.stdout.write("\n@@RESULT@@" + json.dumps(res) + "\n")
